@@ -180,6 +180,12 @@ VARIANTS = [
     V("twin: open mesh bound to a local first", ("C09", "C19"), "", "core.py", '    new_keys = array._key_array[np.ix_(*positions)]', '    mesh = np.ix_(*positions)\n    new_keys = array._key_array[mesh]', expect="silent"),
     V("explicit axis tuple keeps the user's order", ("C08", "C02", "C19"), "R-AXISORDER", "core.py", '        axis_ = tuple(sorted(normalize_axis_tuple(axis, array.ndim)))', '        axis_ = normalize_axis_tuple(axis, array.ndim)', must_mention="axis=(1, 0)"),
     V("twin: axis tuple sorted in a second statement", ("C08", "C02", "C19"), "", "core.py", '        axis_ = tuple(sorted(normalize_axis_tuple(axis, array.ndim)))', '        axis_ = normalize_axis_tuple(axis, array.ndim)\n        axis_ = tuple(np.sort(axis_).tolist())', expect="silent"),
+    V("positions of datetime data cast back to datetimes", ("C11",), "R-ROUNDTRIP", "core.py", '    if requires_numeric and func != "count" and not _is_arg_reduction(func):', '    if requires_numeric and func != "count":', must_mention="argmax"),
+    V("twin: integer-valued reductions excluded by name", ("C11",), "", "core.py", '    if requires_numeric and func != "count" and not _is_arg_reduction(func):', '    if requires_numeric and func not in ["count", "argmax", "argmin", "nanargmax", "nanargmin"]:', expect="silent"),
+    V("Fortran-order shortcut also taken for first / last", ("C06", "C01"), "R-FORDER", "core.py", '            if engine == "flox" and not any(_is_first_last_reduction(f) for f in funcs):', '            if engine == "flox":', must_mention="column-major"),
+    V("twin: positional family excluded through a local flag", ("C06", "C01"), "", "core.py", '            if engine == "flox" and not any(_is_first_last_reduction(f) for f in funcs):', '            if engine == "flox" and not any(_is_first_last_reduction(f_) for f_ in funcs):', expect="silent"),
+    V("reindex refusals test the boolean spelling only", ("C19",), "R-NORMFORM", "core.py", '    if reindex_.blockwise is True and not all_eager:', '    if reindex is True and not all_eager:', must_mention="spelling"),
+    V("twin: normalised strategy tested through a local flag", ("C19",), "", "core.py", '    if reindex_.blockwise is True and not all_eager:', '    wants_blockwise = reindex_.blockwise is True\n    if wants_blockwise and not all_eager:', expect="silent"),
     V("dtype promotion memoised with an untyped key", ("C14",), "R-MEMO", "xrdtypes.py", '        dtype = np.result_type(dtype, fill_value)\n    return dtype\n',
       '        dtype = _promote_for_fill_value(dtype, fill_value)\n    return dtype\n\n\n@functools.lru_cache\ndef _promote_for_fill_value(dtype: np.dtype, fill_value) -> np.dtype:\n    return np.result_type(dtype, fill_value)\n', must_mention="typed"),
     V("twin: dtype promotion memoised with typed=True", ("C14",), "", "xrdtypes.py", '        dtype = np.result_type(dtype, fill_value)\n    return dtype\n',
